@@ -73,6 +73,9 @@ Reference(ids, limit, desc, from, to) == Top(Sorted(InRange(ids, from, to), desc
 
 \* ---------------------------------------------------------------- layouts
 \* store family: lay = [ids |-> set of IDs, fracs |-> set of fractions (a partition of ids)]
+\* A fraction is a SET of documents: how its documents arrived (one bulk or many, in which order, with or without
+\* searches of the growing active fraction in between) is not part of the state, so the answer may not depend on it.
+\* The driver realises every layout with one of four ingestion histories (harness/cmd/multifrac: fill).
 AllIDSets == {S \in SUBSET [mid : MIDs, rid : 1..NIDs] :
                 Cardinality(S) = NIDs /\ \A a, b \in S : a.rid = b.rid => a = b}
 Parts(S) == {P \in SUBSET (SUBSET S \ {{}}) :
